@@ -158,6 +158,11 @@ type Node struct {
 	Timer     *VTimer
 	WatchFlag bool        // Config.WatchOnly()
 	// FlagCleared: the application cleared the flag while the node was at (FlagClearedH, FlagClearedV)
+	// KeyWithdrawn: the application stopped handing out this validator's key (GetKeyPair answers -1: wallet locked, key
+	// withdrawn) while the node was at (KeyWithdrawnH, KeyWithdrawnV); the library asks at every (re)initialisation
+	KeyWithdrawn  bool
+	KeyWithdrawnH uint32
+	KeyWithdrawnV byte
 	FlagCleared  bool
 	FlagClearedH uint32
 	FlagClearedV byte
@@ -260,8 +265,13 @@ func (n *Node) IndexAt(h uint32) int {
 // Active tells whether the node takes an active part at its current height.
 // Active: a validator of its current height whose application has not set the watch-only flag - by the harness' own
 // knowledge, not by what the library's context reports about itself.
+// KeyGone: the key was withdrawn and the node has been (re)initialised since - from then on it is an observer.
+func (n *Node) KeyGone() bool {
+	return n.KeyWithdrawn && n.D != nil && n.D.Validators != nil && (n.D.BlockIndex != n.KeyWithdrawnH || n.D.ViewNumber != n.KeyWithdrawnV)
+}
+
 func (n *Node) Active() bool {
-	if n.D == nil || n.WatchFlag {
+	if n.D == nil || n.WatchFlag || n.KeyGone() {
 		return false
 	}
 	h := n.Tip + 1 // not started yet: the height it is going to start at
@@ -292,6 +302,9 @@ func (n *Node) newDBFT() {
 		dbft.WithCurrentBlockHash[vt.H](func() vt.H { return n.TipHash }),
 		dbft.WithGetValidators[vt.H](func(...dbft.Transaction[vt.H]) []dbft.PublicKey { return n.pubs(n.Tip + 1) }),
 		dbft.WithGetKeyPair[vt.H](func(pubs []dbft.PublicKey) (int, dbft.PrivateKey, dbft.PublicKey) {
+			if n.KeyWithdrawn {
+				return -1, nil, nil
+			}
 			for i, p := range pubs {
 				if p == dbft.PublicKey(vt.Pub(n.ID)) {
 					return i, vt.Priv(n.ID), vt.Pub(n.ID)
